@@ -259,8 +259,8 @@ fn one(acc: &mut Acc, reg: &Registry, s: &dyn Subject, case: &Case) {
 }
 
 pub fn run(ctx: &Ctx, reg: &Registry) -> i32 {
-    let n_cases: u64 = ctx.tier.pick(300, 12000);
-    let n_base: u64 = ctx.tier.pick(3, 40);
+    let n_cases: u64 = ctx.tier.pick(1500, 20000);
+    let n_base: u64 = ctx.tier.pick(6, 40);
     let acc = ctx.par(|shard, n| {
         let mut acc = Acc::new();
         acc.sample_cap = 10;
